@@ -422,7 +422,9 @@ def oracles(ctx, deep):
         creal = rng.choice([0.37, 1.9, 123.4])
         # image-domain zero padding leaves regions without signal, where RSS-estimated maps (and SENSE-type images built on
         # them) are quotients of rounding noise: there only dyadic factors (which commute with every float operation) apply
-        factors = ((2.0**kexp, True),) if c["pad"] else ((2.0**kexp, True), (creal, False))
+        # (the same holds for SVD coil compression: the singular vectors are determined up to a sign / a rotation in
+        # degenerate subspaces, and which one LAPACK returns depends on the rounding of its input)
+        factors = ((2.0**kexp, True),) if (c["pad"] or c["compress"]) else ((2.0**kexp, True), (creal, False))
         for factor, exact in factors:
             try:
                 other = p(raw_sample(c, factor))
@@ -447,9 +449,7 @@ def oracles(ctx, deep):
                 elif exact:
                     good = torch.equal(want, w)
                 else:
-                    # float32 rounding; an SVD (coil compression) in the chain amplifies it by an order of magnitude
-                    tol = 10.0 if c["compress"] else 1.0
-                    good = bool(torch.allclose(want, w, rtol=2e-4 * tol, atol=2e-5 * tol * max(float(want.abs().max()), 1e-30)))
+                    good = bool(torch.allclose(want, w, rtol=2e-4, atol=2e-5 * max(float(want.abs().max()), 1e-30)))
                 if not good:
                     add(Violation("scale-equivariant", "multiplying the raw k-space by %g changes output %s (%s comparison; max diff %.3g)" % (factor, ks, "bit-exact" if exact else "1e-4 relative", float((want.float() - w.float()).abs().max())), {"config": short, "factor": factor, "key": ks}, {"kind": "value", "key": ks}))
         # self-consistency of the outputs
